@@ -137,7 +137,7 @@ def gen_case(st, tier):
         sut = [k for k, o in enumerate(case["ops"]) if not o["op"].startswith("env_")]
         for _ in range(rf.choice([1, 1, 2, 3])):
             if sut:
-                case["faults"].append({"at_op": rf.choice(sut), "kind": rf.choice(["write-open", "write-open", "remove"]),
+                case["faults"].append({"at_op": rf.choice(sut), "kind": rf.choice(["write-open", "write-open", "remove", "read-open"]),
                                        "nth": rf.choice([1, 1, 2, 3]), "errno": rf.choice(sorted(ERRNOS))})
     return case
 
